@@ -10,6 +10,7 @@ import CorgiSpec.Ops
 import CorgiProofs.Conv
 import CorgiProofs.Instances
 import CorgiProofs.Composite
+import CorgiProofs.ConvAt
 
 set_option linter.unusedSectionVars false
 
@@ -104,8 +105,20 @@ theorem C06_conv_executed [AddLaws S] [BEq S] (σ σ' : State S) (img flt r : Ha
   simp only [Except.ok.injEq] at h1
   exact h1.symm
 
+/-- **Single elements at any size.**  The `convat` command of the correspondence check (the implementation
+    computes `image.conv(filters, strides)` and indexes it; the model evaluates only `convElem`, the triple sum
+    of the definition at that index) compares the implementation with the model's own `conv`: for every valid
+    configuration and every in-range index, indexing the model's `conv` result gives exactly `convElem`.  This
+    carries the tie to image sizes (10^5 .. 10^6 elements) at which building the model's whole result is out of
+    reach — where size-dependent code paths of an implementation live. -/
+theorem C06_convat [AddLaws S] [BEq S] (img flt : Tensor S) (sr sc : Nat) (i : List Nat)
+    (hv : convValidB img flt sr sc = true) (hi : inRange (convOutDims img flt sr sc) i = true) :
+    ∃ t, conv img flt sr sc = .ok t ∧ t.index i = .ok (convElem img flt sr sc i) :=
+  convat_spec img flt sr sc i hv hi
+
 end Corgi
 
+#print axioms Corgi.C06_convat
 #print axioms Corgi.C06_refuse_rank
 #print axioms Corgi.C06_refuse_size
 #print axioms Corgi.C06_spec_dims
